@@ -535,3 +535,78 @@ package webrtc
 //@ atsend assert b[8] == uint8(remoteTrack.ssrc>>24) && b[9] == uint8(remoteTrack.ssrc>>16) && b[10] == uint8(remoteTrack.ssrc>>8) && b[11] == uint8(remoteTrack.ssrc)
 //@ atsend assert forall k int :: 12 <= k && k < int(headerLength) ==> b[k] == ufbyte("rtx", k)
 //@ atsend assert forall k int :: int(headerLength) <= k && k < i - 2 ==> b[k] == ufbyte("rtx", k + 2)
+
+// ---------------------------------------------------------------- C29 (static RTP track fan-out)
+// Assumed contracts: a bound writer does not write through the header pointer or the
+// payload it is given (interceptor chain, external); pooled packets are private to the pool.
+//@ func (TrackLocalWriter).WriteRTP
+//@ trusted
+//@ ghost rtpWrites += 1
+//@ modifies nothing
+//@ func (TrackLocalContext).ID
+//@ trusted
+//@ ensures result == ufstr("ctxid")
+//@ modifies nothing
+//@ func util.FlattenErrs
+//@ trusted
+//@ modifies nothing
+//@ func getPacketAllocationFromPool
+//@ trusted
+//@ ensures result != nil && fresh(result)
+//@ modifies nothing
+//@ func resetPacketPoolAllocation
+//@ trusted
+//@ modifies obj(localPacket)
+
+//@ field TrackLocalStaticRTP.bindings props C29 writers (*TrackLocalStaticRTP).Bind, (*TrackLocalStaticRTP).Unbind
+
+// One WriteRTP per current binding, in binding order; each call sees that binding's
+// SSRC and payload type, every other header field as the caller set it (the padding
+// size is carried in the header if only the packet had it) and the caller's payload slice.
+//@ func (*TrackLocalStaticRTP).writeRTP
+//@ props C29
+//@ requires s != nil && packet != nil && !sameobj(packet, s)
+//@ requires forall k int :: 0 <= k && k < len(s.bindings) ==> s.bindings[k].writeStream != nil
+//@ atcall (TrackLocalWriter).WriteRTP assert packet.Header.SSRC == uint32(b.ssrc) && packet.Header.PayloadType == uint8(b.payloadType)
+//@ atcall (TrackLocalWriter).WriteRTP assert b.ssrc == s.bindings[rangeindex].ssrc && b.payloadType == s.bindings[rangeindex].payloadType && b.writeStream == s.bindings[rangeindex].writeStream && b.id == s.bindings[rangeindex].id
+//@ atcall (TrackLocalWriter).WriteRTP assert packet.Header.Version == old(packet.Header.Version) && packet.Header.Padding == old(packet.Header.Padding) && packet.Header.Extension == old(packet.Header.Extension) && packet.Header.Marker == old(packet.Header.Marker)
+//@ atcall (TrackLocalWriter).WriteRTP assert packet.Header.SequenceNumber == old(packet.Header.SequenceNumber) && packet.Header.Timestamp == old(packet.Header.Timestamp) && packet.Header.ExtensionProfile == old(packet.Header.ExtensionProfile)
+//@ atcall (TrackLocalWriter).WriteRTP assert sameptr(packet.Header.CSRC, old(packet.Header.CSRC)) && len(packet.Header.CSRC) == old(len(packet.Header.CSRC)) && sameptr(packet.Header.Extensions, old(packet.Header.Extensions)) && len(packet.Header.Extensions) == old(len(packet.Header.Extensions))
+//@ atcall (TrackLocalWriter).WriteRTP assert sameptr(packet.Payload, old(packet.Payload)) && len(packet.Payload) == old(len(packet.Payload))
+//@ atcall (TrackLocalWriter).WriteRTP assert packet.Header.PaddingSize == ite(old(packet.Header.PaddingSize) != 0, old(packet.Header.PaddingSize), old(packet.PaddingSize))
+//@ ensures ghost(rtpWrites) == old(ghost(rtpWrites)) + uint64(len(s.bindings))
+//@ ensures len(s.bindings) == old(len(s.bindings)) && sameptr(s.bindings, old(s.bindings))
+//@ modifies packet.Header.SSRC, packet.Header.PayloadType, packet.Header.PaddingSize
+//@ loop 0 invariant fresh(writeErrs)
+//@ loop 0 invariant ghost(rtpWrites) == old(ghost(rtpWrites)) + uint64(rangeindex + 1) && rangeindex < len(s.bindings) && sameptr(s.bindings, old(s.bindings)) && len(s.bindings) == old(len(s.bindings))
+//@ loop 0 invariant packet.Header.Version == old(packet.Header.Version) && packet.Header.Padding == old(packet.Header.Padding) && packet.Header.Extension == old(packet.Header.Extension) && packet.Header.Marker == old(packet.Header.Marker)
+//@ loop 0 invariant packet.Header.SequenceNumber == old(packet.Header.SequenceNumber) && packet.Header.Timestamp == old(packet.Header.Timestamp) && packet.Header.ExtensionProfile == old(packet.Header.ExtensionProfile)
+//@ loop 0 invariant sameptr(packet.Header.CSRC, old(packet.Header.CSRC)) && len(packet.Header.CSRC) == old(len(packet.Header.CSRC)) && sameptr(packet.Header.Extensions, old(packet.Header.Extensions)) && len(packet.Header.Extensions) == old(len(packet.Header.Extensions))
+//@ loop 0 invariant sameptr(packet.Payload, old(packet.Payload)) && len(packet.Payload) == old(len(packet.Payload)) && packet.PaddingSize == old(packet.PaddingSize)
+//@ loop 0 invariant packet.Header.PaddingSize == old(packet.Header.PaddingSize) || (old(packet.Header.PaddingSize) == 0 && packet.Header.PaddingSize == old(packet.PaddingSize))
+
+// The caller's packet is never modified: the work is done on a pooled copy.
+//@ func (*TrackLocalStaticRTP).WriteRTP
+//@ props C29
+//@ requires s != nil && p != nil && !sameobj(p, s)
+//@ requires forall k int :: 0 <= k && k < len(s.bindings) ==> s.bindings[k].writeStream != nil
+//@ ensures *p == old(*p)
+//@ ensures ghost(rtpWrites) == old(ghost(rtpWrites)) + uint64(len(s.bindings))
+//@ modifies nothing
+
+// Unbind removes exactly the first binding with the context's id (swap with the last,
+// truncate) and keeps every other binding with its fields; if none matches nothing changes.
+//@ func (*TrackLocalStaticRTP).Unbind
+//@ props C29
+//@ requires s != nil && t != nil && !sameobj(s.bindings, s)
+//@ observe old(len(s.bindings))
+//@ ensures err != nil ==> len(s.bindings) == old(len(s.bindings)) && sameptr(s.bindings, old(s.bindings))
+//@ ensures err != nil ==> (forall k int :: 0 <= k && k < len(s.bindings) ==> s.bindings[k] == old(s.bindings[k]) && s.bindings[k].id != ufstr("ctxid"))
+//@ ensures err == nil ==> len(s.bindings) == old(len(s.bindings)) - 1 && sameptr(s.bindings, old(s.bindings))
+//@ atreturn assert err == nil ==> 0 <= i && i <= len(s.bindings) && old(s.bindings[i].id) == ufstr("ctxid")
+//@ atreturn assert err == nil ==> (forall j int :: 0 <= j && j < i ==> old(s.bindings[j].id) != ufstr("ctxid"))
+//@ atreturn assert err == nil ==> (forall j int :: 0 <= j && j < len(s.bindings) && j != i ==> s.bindings[j] == old(s.bindings[j]))
+//@ atreturn assert err == nil && i < len(s.bindings) ==> s.bindings[i] == old(s.bindings[len(s.bindings)-1])
+//@ loop 0 invariant sameptr(s.bindings, old(s.bindings)) && len(s.bindings) == old(len(s.bindings)) && rangeindex < len(s.bindings)
+//@ loop 0 invariant forall k int :: 0 <= k && k < len(s.bindings) ==> s.bindings[k] == old(s.bindings[k])
+//@ loop 0 invariant forall k int :: 0 <= k && k <= rangeindex ==> s.bindings[k].id != ufstr("ctxid")
